@@ -295,6 +295,10 @@ func (x *Exec) wfFacts(t types.Type, vals []Term, next Term) []Term {
 		if x.strictSlices {
 			out = append(out, IntLt(IntConst(-(1<<40)), arr))
 		}
+		if !x.strictSlices {
+			// a slice into an array embedded in an object: that object exists already
+			out = append(out, Term{"(< (owner " + arr.S + ") " + next.S + ")", SBool})
+		}
 		out = append(out, IntLt(arr, next),
 			BVCmp("bvule", ln, cp), BVCmp("bvule", cp, sizeLimit), BVCmp("bvule", off, sizeLimit),
 			Implies(Eq(arr, IntConst(0)), Eq(cp, BVInt(0, 64))))
@@ -816,7 +820,7 @@ func (f *frame) loopEvalCtx(li *loopInfo, heap *HeapState, phiVal func(*ssa.Phi)
 // contractCtx builds the evaluation context for this frame's own contract clauses.
 func (f *frame) contractCtx(heap *HeapState) *EvalCtx {
 	x := f.x
-	ctx := &EvalCtx{X: x, PkgPath: f.fn.Pkg.Pkg.Path(), Scope: f.fn.Pkg.Pkg.Scope(), Vars: map[string]Val{}, Heap: heap, Old: f.entryHeap}
+	ctx := &EvalCtx{X: x, PkgPath: fnPkg(f.fn).Pkg.Path(), Scope: fnPkg(f.fn).Pkg.Scope(), Vars: map[string]Val{}, Heap: heap, Old: f.entryHeap}
 	names := f.paramNames()
 	for i, n := range names {
 		if n != "" && n != "_" && i < len(f.params) {
@@ -1207,7 +1211,7 @@ func (f *frame) srcLabel(kind string, pos token.Pos, want func(ast.Node) bool) s
 	if pos == token.NoPos {
 		return kind
 	}
-	p := x.W.byPath[f.fn.Pkg.Pkg.Path()]
+	p := x.W.byPath[fnPkg(f.fn).Pkg.Path()]
 	if p == nil {
 		return kind
 	}
